@@ -17,17 +17,21 @@ Inductive api_out := ApiOut (run : obs) (units : Z) (statuses : list Z).
 
 Definition api_case := (runspec * list probe * api_out)%type.
 
-Inductive answer := MustError | MustReturn.     (* MustReturn: nil or error, not a failure *)
+Inductive answer := MustError | MustReturn      (* MustReturn: nil or error, not a failure *)
+                  | MustAnswer.                  (* a query without an error result (AdjacentTo, IsValid, IsAlive,
+                                                    IsCharacter, IsEnemy: kinds 8, 9): it answers for every id *)
 
 Definition created (units target : Z) : bool := (1 <=? target) && (target <=? units).
 
 Definition engine_call (units : Z) (p : probe) : answer :=
-  let '(Probe _ target _) := p in if created units target then MustReturn else MustError.
+  let '(Probe kind target _) := p in
+  if 8 <=? kind then MustAnswer else if created units target then MustReturn else MustError.
 
 Definition answer_ok (a : answer) (status : Z) : bool :=
   match a with
   | MustError => status =? 1
   | MustReturn => (status =? 0) || (status =? 1)
+  | MustAnswer => status =? 0
   end.
 
 Fixpoint answers_ok (units : Z) (ps : list probe) (sts : list Z) : bool :=
